@@ -17,6 +17,7 @@ import (
 	"verif/refmodel"
 	"verif/res"
 	"verif/rt"
+	"verif/specgen"
 )
 
 func init() { RegisterCheck("C14", CheckC14) }
@@ -191,12 +192,14 @@ func CheckC14(p *Pkg, e *Env, r *res.Result) {
 			}
 		}
 		var body []byte
-		bodyKind := rapid.SampledFrom([]string{"none", "valid", "valid", "valid", "truncated", "deep", "wrong-type", "empty-object", "garbage", "huge"}).Draw(t, "body")
+		bodyKind := rapid.SampledFrom([]string{"none", "valid", "valid", "valid", "truncated", "deep", "wrong-type", "value-swap", "value-swap", "empty-object", "garbage", "huge"}).Draw(t, "body")
 		var valid []byte
+		var validTree any
 		if rb := p.Doc.ResolveRequestBody(op.Spec.RequestBody); rb != nil {
 			if mt := rb.Content["application/json"]; mt != nil && mt.Schema != nil {
 				dg := &refmodel.DocGen{Doc: p.Doc, T: t, ExtraKeys: true}
-				valid = refmodel.Render(t, dg.Gen(mt.Schema, 3), false)
+				validTree = dg.Gen(mt.Schema, 3)
+				valid = refmodel.Render(t, validTree, false)
 			}
 		}
 		switch bodyKind {
@@ -210,6 +213,11 @@ func CheckC14(p *Pkg, e *Env, r *res.Result) {
 			body = []byte(deepJSON(rapid.SampledFrom([]int{10, 1000, 20000}).Draw(t, "depth")))
 		case "wrong-type":
 			body = []byte(rapid.SampledFrom([]string{"null", "true", "1", "\"s\"", "[]", "[1,2]", "{}", "{\"a\":null}", "[{}]", "{\"kind\":1}", "{\"kind\":\"nope\"}"}).Draw(t, "wt"))
+		case "value-swap":
+			// a valid document with one to three of its values replaced by hostile tokens
+			if valid != nil {
+				body = refmodel.Render(t, refmodel.SwapNodes(t, validTree), false)
+			}
 		case "empty-object":
 			body = []byte("{}")
 		case "garbage":
@@ -365,6 +373,103 @@ func CheckC14(p *Pkg, e *Env, r *res.Result) {
 		r.Sample(map[string]any{"request": method + " " + clip(target, 120), "body_kind": bodyKind, "outcome": class, "status": rec.Code}, 5)
 	}
 	ok, _ := rt.Check("C14-"+p.Name, rt.Seed(e.Seed, rt.SeedStr("C14"), uint64(p.Index)), n, 15*time.Second, prop)
+	if !ok && lastFail != nil {
+		r.Fail(*lastFail)
+		return
+	}
+	// token sweep: an otherwise valid request (path, method, credentials, required
+	// parameters) whose JSON body is a valid document with ONE value replaced, in turn,
+	// by every hostile token (values of every JSON type in their shortest spellings)
+	var bodyOps []*Op
+	for _, op := range p.Ops {
+		if rb := p.Doc.ResolveRequestBody(op.Spec.RequestBody); rb != nil && rb.Content["application/json"] != nil && rb.Content["application/json"].Schema != nil {
+			bodyOps = append(bodyOps, op)
+		}
+	}
+	if len(bodyOps) == 0 {
+		return
+	}
+	sweep := func(t *rapid.T) {
+		op := bodyOps[rapid.IntRange(0, len(bodyOps)-1).Draw(t, "op")]
+		decls, _ := OpParams(op)
+		segs := strings.Split(strings.TrimPrefix(op.Template, "/"), "/")
+		q := url.Values{}
+		hdr := http.Header{"Content-Type": {"application/json"}}
+		for i, sg := range segs {
+			if strings.HasPrefix(sg, "{") {
+				segs[i] = "7"
+				for _, d := range decls {
+					if d.In == "path" && d.Name == sg[1:len(sg)-1] {
+						segs[i], _ = drawLexeme(t, d.Prim, fmt.Sprintf("seg%d", i))
+					}
+				}
+			}
+		}
+		for i, d := range decls {
+			if !d.Required || (d.In != "query" && d.In != "header") {
+				continue
+			}
+			lex, _ := drawLexeme(t, d.Prim, fmt.Sprintf("p%d", i))
+			if d.In == "query" {
+				q.Add(d.Name, lex)
+			} else {
+				hdr.Add(d.Name, lex)
+			}
+		}
+		if p.Doc.Components != nil {
+			for _, name := range specgen.SortedKeys(p.Doc.Components.SecuritySchemes) {
+				sch := p.Doc.Components.SecuritySchemes[name]
+				switch refmodel.SchemeKind(sch) {
+				case "bearer":
+					hdr.Set("Authorization", "Bearer valid-"+name)
+				case "apikey-header":
+					hdr.Set(sch.Name, "valid-"+name)
+				case "apikey-query":
+					q.Set(sch.Name, "valid-"+name)
+				}
+			}
+		}
+		mt := p.Doc.ResolveRequestBody(op.Spec.RequestBody).Content["application/json"]
+		tree := (&refmodel.DocGen{Doc: p.Doc, T: t}).Gen(mt.Schema, 3)
+		nslots := refmodel.CountSlots(tree)
+		if nslots == 0 {
+			return
+		}
+		at := rapid.IntRange(0, nslots-1).Draw(t, "swap_at")
+		path := p.BasePath + "/" + strings.Join(segs, "/")
+		for _, tok := range refmodel.HostileTokens {
+			body := refmodel.Render(t, refmodel.SwapAt(tree, at, tok), false)
+			var req *http.Request
+			func() {
+				defer func() { recover() }()
+				req = httptest.NewRequest(op.Method, "http://h.example/", bytes.NewReader(body))
+			}()
+			if req == nil {
+				return
+			}
+			req.URL.Path = path
+			req.URL.RawQuery = q.Encode()
+			req.Header = hdr.Clone()
+			full.Reset()
+			r.Evaluations++
+			rec, pan := full.Serve(req)
+			r.Label("sweep:token-in-valid-body")
+			if len(full.Calls) > 0 {
+				r.NonTrivial("C14", p.Index, "sweep", op.String(), at, tok)
+			}
+			if clause, msg := JudgeServed(full, rec, pan); clause != "" {
+				f := res.Failure{Property: "C14", Kind: clause + ":" + panicSiteOf(msg), Clause: clause,
+					Detail: fmt.Sprintf("%s %s with a valid body in which one value is replaced by %s: %s: %s", op.Method, path, tok, clip(string(body), 300), msg),
+					Replay: p.SpecReplay(map[string]any{"request.txt": fmt.Sprintf("%s %s?%s\n%v\n%s", op.Method, path, q.Encode(), hdr, clip(string(body), 2000))})}
+				if IsKnown(p, e, r, &f) {
+					return
+				}
+				lastFail = &f
+				t.Fatalf("%s", clip(f.Detail, 600))
+			}
+		}
+	}
+	ok, _ = rt.Check("C14-sweep-"+p.Name, rt.Seed(e.Seed, rt.SeedStr("C14-sweep"), uint64(p.Index)), n/16, 15*time.Second, sweep)
 	if !ok && lastFail != nil {
 		r.Fail(*lastFail)
 	}
